@@ -21,6 +21,9 @@ MODULE = "SysLoss.Props.C16"
 THEOREMS = [
     "SysLoss.C16.names_factor", "SysLoss.C16.rel_factors", "SysLoss.C16.phase_lkup_factors",
     "SysLoss.C16.noops_invisible", "SysLoss.C16.factors_nonvacuous", "SysLoss.C16.toSSys_node",
+    # Props/C16Sweep: the sweeps are pointwise maps, hence independent of the topological order and of sibling order
+    "SysLoss.C16.fwdProp_pointwise", "SysLoss.C16.fwdProp_order_free", "SysLoss.C16.backProp_pointwise",
+    "SysLoss.C16.backProp_order_free", "SysLoss.C16.childCurr_sibling_order", "SysLoss.C16.childCurr_perm",
 ]
 RULE = ("random edit histories of 5-50 calls (all six methods, ~20% rejected and dropped, components with limits and interpolation "
         "tables, phases, groups, rails, a PMux in ~50%) with forced coverage of: rename through change_comp, deletion with and "
